@@ -12,7 +12,8 @@
 EXTENDS Receive, Json, IOUtils, SequencesExt
 
 Recs == ndJsonDeserialize(IOEnv.TRACE)
-TStreams == [k \in 1..Len(Recs) |-> Recs[k].stream]     \* Streams <- TStreams: the stream of case k
+TStreams == <<>>                       \* Streams <- TStreams (unused here)
+TStreamOf(k) == Recs[k].stream         \* StreamOf <- TStreamOf: the stream of case k
 VARIABLE i
 tvars == <<vars, i>>
 
@@ -33,12 +34,12 @@ Run(s, evs, k) ==
      IF n.phase = "read" /\ ((n.bl.st # "init") = (ev.p = 1)) /\ SameBuf(n, ev) THEN Run(n, evs, k + 1) ELSE stop
   ELSE IF ev.e = "r" THEN                                  \* the read returned ev.n bytes
      IF s.phase # "read" THEN stop
-     ELSE IF ev.n = 0 THEN (IF s.pos = Len(Streams[s.sid]) THEN Run(s, evs, k + 1) ELSE stop)    \* the Eof step is taken at the outcome event
-     ELSE IF ev.n > Len(Streams[s.sid]) - s.pos \/ (s.fl = "sync" /\ ev.n > s.blen - s.filled) THEN stop
+     ELSE IF ev.n = 0 THEN (IF s.pos = Len(StreamOf(s.sid)) THEN Run(s, evs, k + 1) ELSE stop)    \* the Eof step is taken at the outcome event
+     ELSE IF ev.n > Len(StreamOf(s.sid)) - s.pos \/ (s.fl = "sync" /\ ev.n > s.blen - s.filled) THEN stop
      ELSE LET n == PRead(s, ev.n) IN IF SameBuf(n, ev) THEN Run(n, evs, k + 1) ELSE stop
   ELSE                                                     \* "o": a receive call returned ev.t
      LET n == IF s.phase = "parse" THEN PParse(s)
-              ELSE IF s.phase = "read" /\ s.pos = Len(Streams[s.sid]) THEN PEof(s) ELSE s IN
+              ELSE IF s.phase = "read" /\ s.pos = Len(StreamOf(s.sid)) THEN PEof(s) ELSE s IN
      IF Emitted(s, n, ev.t) THEN Run(n, evs, k + 1) ELSE stop
 
 TInit == i = 0 /\ sid = 0 /\ fl = "" /\ pos = 0 /\ data = <<>> /\ bl = B0 /\ filled = 0 /\ blen = Cap0 /\ bcap = Cap0
